@@ -76,7 +76,7 @@ REQUIRED_COUNTERS = (['obs:d_dx:complex-step', 'obs:d_dx:fd7', 'obs:d_dx:batched
                       'obs:spline:jacobian-value-independent', 'obs:spline:akima-complex-step',
                       'obs:mmsc:d_dx', 'obs:mmsc:d_dx-complex-step', 'obs:mmsc:d_dtrain-identity',
                       'obs:mmsc:d_dtrain-complex-step', 'obs:mmsc:d_dtrain-euler',
-                      'obs:splinecomp:identity', 'obs:splinecomp:fd']
+                      'obs:splinecomp:identity', 'obs:splinecomp:complex-step']
                      + ['cell:ddx:' + m for m in GENERAL + FIXED]
                      + ['cell:train:' + m for m in LINEAR]
                      + ['cell:spline:' + m for m in SPLINE]
@@ -86,7 +86,6 @@ REQUIRED_COUNTERS = (['obs:d_dx:complex-step', 'obs:d_dx:fd7', 'obs:d_dx:batched
 ILL = 1e-6
 CS = 1e-30
 W7 = np.array([-1.0, 9.0, -45.0, 0.0, 45.0, -9.0, 1.0]) / 60.0
-W5 = np.array([1.0, -8.0, 0.0, 8.0, -1.0]) / 12.0
 
 
 def _chain(e):
@@ -781,7 +780,7 @@ def judge_splinecomp(case, acc):
         c = om.SplineComp(**kw)
         c.add_spline(y_cp_name='ycp', y_interp_name='y', y_cp_val=v1.copy())
         prob.model.add_subsystem('c', c, promotes=['*'])
-        prob.setup()
+        prob.setup(force_alloc_complex=(method == 'akima'))
         prob.run_model()
         y1 = np.array(prob.get_val('y')).reshape(vec, n_i).copy()
         J = np.array(prob.compute_totals(of=['y'], wrt=['ycp'], return_format='dict')['y']['ycp'], dtype=float)
@@ -803,30 +802,46 @@ def judge_splinecomp(case, acc):
                     rep.viol('splinecomp:cross-vec-coupling:%s' % method, 'non-zero partial between vec rows')
         Jd = np.array([J[a, :, a, :] for a in range(vec)])     # (vec, n_i, n_cp)
         if method == 'akima':
-            hv = 1e-3 * vmax
-            sel = rng.choice(n_cp, size=min(5, n_cp), replace=False)
-            for q in sel:
-                def rt(s):
-                    t = v1.copy()
-                    t[:, q] += s
-                    return run(t)
-                D1 = np.tensordot(W5, np.array([rt(s * hv) for s in (-2, -1, 0, 1, 2)]), axes=(0, 0)) / hv
-                D2 = np.tensordot(W5, np.array([rt(s * hv / 2) for s in (-2, -1, 0, 1, 2)]), axes=(0, 0)) / (hv / 2)
-                trunc = np.abs(D1 - D2)
-                tol = 2 * trunc + 1.5 * 2 * delta[None, :] / (hv / 2) + 8 * delta[None, :] / vmax
-                ok_pts = tol <= 1e-5 * (1 + np.abs(D2))
-                acc.count('obs:splinecomp:fd')
-                if not ok_pts.all():
-                    acc.count('skip:fd-unreliable', int((~ok_pts).sum()))
-                if ok_pts.any():
-                    rep.judged = True
-                bad = ok_pts & ~(np.abs(Jd[:, :, q] - D2) <= tol)
-                if bad.any():
-                    i = np.unravel_index(np.argmax(bad), bad.shape)
-                    rep.viol('splinecomp:d_dcp' + _optkey(opts) + ':akima',
-                             'x_interp=%r control point %d: partial %r, 5-point difference %r (tol %.3g)'
-                             % (float(xi[i[1]]), int(q), Jd[i[0], i[1], q], D2[i], tol[i]))
-                    break
+            # akima is only piecewise smooth in the control values (see module docstring): complex step through
+            # the component instead of a difference stencil; conditioning measured on a perturbed table
+            pert = v1 + 1e-12 * vmax * rng.uniform(-1, 1, size=v1.shape)
+            run(pert)
+            Jp = np.array(prob.compute_totals(of=['y'], wrt=['ycp'], return_format='dict')['y']['ycp'],
+                          dtype=float).reshape(vec, n_i, vec, n_cp)
+            cond = np.abs(np.array([Jp[a, :, a, :] for a in range(vec)]) - Jd).max(axis=2) / 1e-12   # (vec, n_i)
+            run(v1)
+            tol = 2 * (8 * delta[None, :] / vmax + 64 * R.EPS * cond)
+            ref = np.empty_like(Jd)
+            prob.set_complex_step_mode(True)
+            try:
+                for q in range(n_cp):
+                    t = v1.astype(complex)
+                    t[:, q] += 1j * CS
+                    prob.set_val('ycp', t)
+                    prob.run_model()
+                    yc = np.array(prob.get_val('y')).reshape(vec, n_i)
+                    ref[:, :, q] = yc.imag / CS
+                    if not np.all(np.abs(yc.real - y1) <= 2 * delta[None, :]):
+                        rep.viol('splinecomp:complex-step-changes-value:akima', 'y=%s but Re y(ycp + ih)=%s'
+                                 % (y1[0].tolist()[:4], yc.real[0].tolist()[:4]))
+            finally:
+                prob.set_val('ycp', v1.astype(complex))
+                prob.set_complex_step_mode(False)
+            acc.count('obs:splinecomp:complex-step')
+            rep.judged = True
+            err = np.abs(Jd - ref).max(axis=2)
+            if not np.all(err <= tol):
+                i = np.unravel_index(np.argmax(err - tol), err.shape)
+                q = int(np.argmax(np.abs(Jd[i] - ref[i])))
+                rep.viol('splinecomp:d_dcp' + _optkey(opts) + ':akima',
+                         'x_interp=%r control point %d: partial %r, complex step through the component %r (tol %.3g)'
+                         % (float(xi[i[1]]), q, float(Jd[i][q]), float(ref[i][q]), tol[i]))
+            if not opts.get('delta_x'):     # Euler identity (degree-1 homogeneity) unless |.| is smoothed
+                got = np.einsum('vij,vj->vi', Jd, v1)
+                tolE = 8 * delta[None, :] + 64 * R.EPS * cond * np.abs(v1).sum(axis=1)[:, None]
+                if not np.all(np.abs(got - y1) <= tolE):
+                    rep.viol('splinecomp:euler-identity:akima', 'J.ycp=%s but y=%s'
+                             % (got[0].tolist()[:4], y1[0].tolist()[:4]))
             run(v1)
         else:
             acc.count('obs:splinecomp:identity')
